@@ -18,9 +18,22 @@ ALLOWED_AXIOMS = set()  # none expected; stdlib axioms would be named here and i
 os.makedirs(BUILD, exist_ok=True)
 
 
+def _big_stack():
+    # extracted OCaml code recurses over lists non-tail-recursively: give the drivers a large stack
+    import resource
+    try:
+        resource.setrlimit(resource.RLIMIT_STACK, (resource.RLIM_INFINITY, resource.RLIM_INFINITY))
+    except (ValueError, OSError):
+        try:
+            soft, hard = resource.getrlimit(resource.RLIMIT_STACK)
+            resource.setrlimit(resource.RLIMIT_STACK, (hard, hard))
+        except (ValueError, OSError):
+            pass
+
+
 def sh(cmd, timeout=1200, cwd=VERIF, env=None, inp=None):
     try:
-        p = subprocess.run(cmd, shell=isinstance(cmd, str), cwd=cwd, env=env, input=inp,
+        p = subprocess.run(cmd, shell=isinstance(cmd, str), cwd=cwd, env=env, input=inp, preexec_fn=_big_stack,
                            stdout=subprocess.PIPE, stderr=subprocess.STDOUT, timeout=timeout)
         return p.returncode, p.stdout.decode('utf-8', 'replace')
     except subprocess.TimeoutExpired as e:
